@@ -161,10 +161,20 @@ pub fn name255(s: &str) -> String {
 
 /// builds the ontology of a case through the Builder API, in the supply order of the case
 pub fn build(c: &Case, defaults: bool) -> Result<Ontology, String> {
+    build_opts(c, defaults, false)
+}
+/// `dup`: every term id is supplied a second time (with another name) after all terms were added once;
+/// documented behaviour of adding an existing id: nothing happens
+pub fn build_opts(c: &Case, defaults: bool, dup: bool) -> Result<Ontology, String> {
     let m = Model::new(c);
     let mut b = Builder::new();
     for node in node_order(c.n, c.order) {
         b.new_term(&name_of(node), m.ids[node]);
+    }
+    if dup {
+        for node in node_order(c.n, c.order ^ 1) {
+            b.new_term("supplied again", m.ids[node]);
+        }
     }
     let mut b = b.terms_complete();
     let mut es: Vec<(usize, usize)> = pairs(c.n).into_iter().enumerate().filter(|(k, _)| c.edges >> k & 1 == 1).map(|(_, p)| p).collect();
@@ -332,8 +342,12 @@ pub fn check_c03(c: &Case) -> Check {
 }
 
 pub fn check_c10(c: &Case) -> Check {
+    check_c10_with(c, false)?;
+    check_c10_with(c, true).map_err(|e| format!("with every id supplied twice: {e}"))
+}
+fn check_c10_with(c: &Case, dup: bool) -> Check {
     let m = Model::new(c);
-    let ont = build(c, false)?;
+    let ont = build_opts(c, false, dup)?;
     let present: BTreeSet<u32> = m.ids.iter().copied().collect();
     let mut probes: BTreeSet<u32> = [0u32, 1, 2, 117, 118, 119, 9_999_998, 9_999_999, 10_000_000, 10_000_001, u32::MAX].into_iter().collect();
     for &i in &m.ids {
@@ -799,7 +813,7 @@ pub fn oracle(prop: &str) -> Option<(fn(&Case) -> Check, &'static [u8], bool)> {
         "C06" => (check_c06, &[1], true),
         "C07" => (check_c07, &[0], true),
         "C08" => (check_c08, &[0], true),
-        "C18" => (check_c18, &[1], true),
+        "C18" => (check_c18, &[0, 1], true),
         "C10" => (check_c10, &[0, 2], true),
         "C12" => (check_c12, &[1, 2], false),
         "C13" => (check_c13, &[0], true),
@@ -836,7 +850,13 @@ pub fn explore(prop: &str, thorough: bool) -> i32 {
         }
     }
     THOROUGH.store(thorough, std::sync::atomic::Ordering::Relaxed);
-    let cs = cases(thorough, idmaps, with_facts);
+    let mut cs = cases(thorough, idmaps, with_facts);
+    // drop the cases an oracle would skip, so that the reported count is what was really explored
+    match prop {
+        "C18" => cs.retain(|c| c.order == 0 && (c.idmap == 0 || c.n <= 3 || thorough)),
+        "C08" => cs.retain(|c| c.n >= 2 && c.edges & 1 == 1),
+        _ => {}
+    }
     let distinct: BTreeSet<(usize, u32)> = cs.iter().map(|c| (c.n, c.edges)).collect();
     let sample = cs.get(cs.len() / 2).map(|c| c.id()).unwrap_or_default();
     match run_parallel(cs, f) {
@@ -1129,6 +1149,16 @@ pub struct Enc {
     pub reverse: bool,
     /// per node: (obsolete, replacement id or 0)
     pub flags: Vec<(bool, u32)>,
+    pub rename_term: Option<usize>,
+    pub rename_rec: Option<(usize, u32)>,
+}
+impl Clone for Enc {
+    fn clone(&self) -> Enc {
+        Enc { version: self.version, reverse: self.reverse, flags: self.flags.clone(), rename_term: self.rename_term, rename_rec: self.rename_rec }
+    }
+}
+fn enc_term_name(e: &Enc, t: usize) -> String {
+    if e.rename_term == Some(t) { format!("renamed {t}") } else { name_of(t) }
 }
 pub fn encode(c: &Case, e: &Enc) -> Vec<u8> {
     let m = Model::new(c);
@@ -1145,7 +1175,7 @@ pub fn encode(c: &Case, e: &Enc) -> Vec<u8> {
     let terms: Vec<Vec<u8>> = order
         .iter()
         .map(|&t| {
-            let name = name255(&name_of(t));
+            let name = name255(&enc_term_name(e, t));
             let nb = name.as_bytes();
             let mut r = vec![];
             if e.version == 1 {
@@ -1188,7 +1218,10 @@ pub fn encode(c: &Case, e: &Enc) -> Vec<u8> {
         let mut recs: Vec<Vec<u8>> = m.recs[kind]
             .iter()
             .map(|(r, ds)| {
-                let name = match kind { 0 => format!("G{r}"), 1 => format!("O{r}"), _ => format!("R{r}") };
+                let mut name = match kind { 0 => format!("G{r}"), 1 => format!("O{r}"), _ => format!("R{r}") };
+                if e.rename_rec == Some((kind, *r)) {
+                    name += "x";
+                }
                 let nb = name.as_bytes();
                 let mut v = vec![];
                 if kind == 0 {
@@ -1239,7 +1272,7 @@ pub fn check_c08(c: &Case) -> Check {
         let reference = if version == 1 { reference.replacen("v0000-00-00", "v0000-00-00", 1) } else { reference };
         for reverse in [false, true] {
             let flags: Vec<(bool, u32)> = (0..m.n).map(|t| (t == 2 && version > 1, if t == 3 && version > 1 { m.ids[0] } else { 0 })).collect();
-            let enc = Enc { version, reverse, flags: flags.clone() };
+            let enc = Enc { version, reverse, flags: flags.clone(), rename_term: None, rename_rec: None };
             let bytes = encode(&cv, &enc);
             let ont = match load(&bytes) {
                 Err(()) => return Err(format!("from_bytes panicked on a valid v{version} file (record order reversed: {reverse})")),
@@ -1317,24 +1350,166 @@ pub fn check_c08(c: &Case) -> Check {
     Ok(())
 }
 
-pub fn check_c18(c: &Case) -> Check {
-    let m = Model::new(c);
-    let o = build(c, false)?;
-    let cmp = o.compare(&o);
-    if !(cmp.added_hpo_terms().is_empty() && cmp.removed_hpo_terms().is_empty() && cmp.changed_hpo_terms().is_empty()
-        && cmp.added_genes().is_empty() && cmp.removed_genes().is_empty() && cmp.changed_genes().is_empty()
-        && cmp.added_omim_diseases().is_empty() && cmp.removed_omim_diseases().is_empty() && cmp.changed_omim_diseases().is_empty()
-        && cmp.added_orpha_diseases().is_empty() && cmp.removed_orpha_diseases().is_empty() && cmp.changed_orpha_diseases().is_empty())
-    {
-        return Err("comparing an ontology with itself reports differences".into());
+/// what an ontology is specified to contain, as far as comparison is concerned
+#[derive(Clone)]
+struct Facts {
+    /// id -> (name, direct parents, obsolete, replacement)
+    terms: BTreeMap<u32, (String, BTreeSet<u32>, bool, Option<u32>)>,
+    /// per kind: record id -> (name, direct terms)
+    recs: [BTreeMap<u32, (String, BTreeSet<u32>)>; 3],
+}
+/// a variant of a case: structure through the Builder, or (when flags / names are edited) through the independent v3 encoder
+#[derive(Clone)]
+struct Variant {
+    case: Case,
+    enc: Option<Enc>,
+}
+fn variant_facts(v: &Variant) -> Facts {
+    let m = Model::new(&v.case);
+    let mut terms = BTreeMap::new();
+    for t in 0..m.n {
+        let (mut name, mut obs, mut rep) = (name_of(t), false, None);
+        if let Some(e) = &v.enc {
+            name = name255(&enc_term_name(e, t));
+            obs = e.flags[t].0;
+            rep = if e.flags[t].1 != 0 { Some(e.flags[t].1) } else { None };
+        }
+        terms.insert(m.ids[t], (name, m.idset(&m.parents[t]), obs, rep));
     }
-    // one-edit variants: drop the last term / flip one edge / add one annotation
-    let mut variants: Vec<Case> = vec![];
+    let mut recs: [BTreeMap<u32, (String, BTreeSet<u32>)>; 3] = Default::default();
+    for kind in 0..3 {
+        for (r, ds) in &m.recs[kind] {
+            let mut name = match kind { 0 => format!("G{r}"), 1 => format!("O{r}"), _ => format!("R{r}") };
+            if let Some(e) = &v.enc {
+                if e.rename_rec == Some((kind, *r)) {
+                    name += "x";
+                }
+            }
+            recs[kind].insert(*r, (name, m.idset(ds)));
+        }
+    }
+    Facts { terms, recs }
+}
+fn variant_build(v: &Variant) -> Result<Ontology, String> {
+    match &v.enc {
+        None => build(&v.case, false),
+        Some(e) => match load(&encode(&v.case, e)) {
+            Ok(Ok(o)) => Ok(o),
+            Ok(Err(e)) => Err(format!("variant does not load: {e}")),
+            Err(()) => Err("variant load panicked".into()),
+        },
+    }
+}
+type Delta = (BTreeSet<u32>, BTreeSet<u32>);
+fn ids_of(v: Option<&Vec<HpoTermId>>) -> BTreeSet<u32> {
+    v.map(|v| v.iter().map(|x| x.as_u32()).collect()).unwrap_or_default()
+}
+
+fn compare_expect(old: &Ontology, new: &Ontology, fo: &Facts, fnw: &Facts) -> Check {
+    let cmp = old.compare(new);
+    let ids_old: BTreeSet<u32> = fo.terms.keys().copied().collect();
+    let ids_new: BTreeSet<u32> = fnw.terms.keys().copied().collect();
+    let added: BTreeSet<u32> = cmp.added_hpo_terms().iter().map(|t| t.id().as_u32()).collect();
+    let removed: BTreeSet<u32> = cmp.removed_hpo_terms().iter().map(|t| t.id().as_u32()).collect();
+    expect("added terms", added, ids_new.difference(&ids_old).copied().collect())?;
+    expect("removed terms", removed, ids_old.difference(&ids_new).copied().collect())?;
+    // (added parents, removed parents, name change, obsolete change, replacement change)
+    type TD = (BTreeSet<u32>, BTreeSet<u32>, Option<(String, String)>, Option<(bool, bool)>, Option<(Option<u32>, Option<u32>)>);
+    let mut exp_changed: BTreeMap<u32, TD> = BTreeMap::new();
+    for &id in ids_old.intersection(&ids_new) {
+        let (o, n) = (&fo.terms[&id], &fnw.terms[&id]);
+        // a replacement is reported as the term it resolves to: an id absent from the ontology counts as none
+        let ro = o.3.filter(|r| ids_old.contains(r));
+        let rn = n.3.filter(|r| ids_new.contains(r));
+        if o.0 != n.0 || o.1 != n.1 || o.2 != n.2 || ro != rn {
+            exp_changed.insert(
+                id,
+                (
+                    n.1.difference(&o.1).copied().collect(),
+                    o.1.difference(&n.1).copied().collect(),
+                    if o.0 != n.0 { Some((o.0.clone(), n.0.clone())) } else { None },
+                    if o.2 != n.2 { Some((o.2, n.2)) } else { None },
+                    if ro != rn { Some((ro, rn)) } else { None },
+                ),
+            );
+        }
+    }
+    let got_changed: BTreeMap<u32, TD> = cmp
+        .changed_hpo_terms()
+        .iter()
+        .map(|d| {
+            (
+                d.id().as_u32(),
+                (
+                    ids_of(d.added_parents()),
+                    ids_of(d.removed_parents()),
+                    d.changed_name().cloned(),
+                    d.changed_obsolete(),
+                    d.changed_replacement().map(|(a, b)| (a.map(|x| x.as_u32()), b.map(|x| x.as_u32()))),
+                ),
+            )
+        })
+        .collect();
+    expect("changed terms (added parents, removed parents, name, obsolete, replacement)", got_changed, exp_changed)?;
+    for kind in 0..3 {
+        let ro: BTreeSet<u32> = fo.recs[kind].keys().copied().collect();
+        let rn: BTreeSet<u32> = fnw.recs[kind].keys().copied().collect();
+        type AD = (Delta, Option<(String, String)>, (usize, usize));
+        let conv = |d: &hpo::comparison::AnnotationDelta| -> (String, AD) {
+            (d.id().to_string(), ((ids_of(d.added_terms()), ids_of(d.removed_terms())), d.changed_name().cloned(), d.n_terms()))
+        };
+        let (ga, gr, gc): (BTreeSet<u32>, BTreeSet<u32>, Vec<(String, AD)>) = match kind {
+            0 => (
+                cmp.added_genes().iter().map(|g| g.id().as_u32()).collect(),
+                cmp.removed_genes().iter().map(|g| g.id().as_u32()).collect(),
+                cmp.changed_genes().iter().map(conv).collect(),
+            ),
+            1 => (
+                cmp.added_omim_diseases().iter().map(|g| g.id().as_u32()).collect(),
+                cmp.removed_omim_diseases().iter().map(|g| g.id().as_u32()).collect(),
+                cmp.changed_omim_diseases().iter().map(conv).collect(),
+            ),
+            _ => (
+                cmp.added_orpha_diseases().iter().map(|g| g.id().as_u32()).collect(),
+                cmp.removed_orpha_diseases().iter().map(|g| g.id().as_u32()).collect(),
+                cmp.changed_orpha_diseases().iter().map(conv).collect(),
+            ),
+        };
+        expect(&format!("added records kind {kind}"), ga, rn.difference(&ro).copied().collect())?;
+        expect(&format!("removed records kind {kind}"), gr, ro.difference(&rn).copied().collect())?;
+        let mut exp: Vec<AD> = vec![];
+        for r in ro.intersection(&rn) {
+            let (o, n) = (&fo.recs[kind][r], &fnw.recs[kind][r]);
+            if o.0 != n.0 || o.1 != n.1 {
+                exp.push((
+                    (n.1.difference(&o.1).copied().collect(), o.1.difference(&n.1).copied().collect()),
+                    if o.0 != n.0 { Some((o.0.clone(), n.0.clone())) } else { None },
+                    (o.1.len(), n.1.len()),
+                ));
+            }
+        }
+        let mut got: Vec<AD> = gc.into_iter().map(|x| x.1).collect();
+        got.sort();
+        exp.sort();
+        expect(&format!("changed records kind {kind} ((added, removed terms), name change, term counts)"), got, exp)?;
+    }
+    Ok(())
+}
+
+pub fn check_c18(c: &Case) -> Check {
+    // comparison does not depend on the supply order; the second id map is only used on the smaller graphs in the quick tier
+    if c.order != 0 || (c.idmap != 0 && c.n > 3 && !THOROUGH.load(std::sync::atomic::Ordering::Relaxed)) {
+        return Ok(());
+    }
+    let base = Variant { case: c.clone(), enc: None };
+    let o = variant_build(&base)?;
+    let fb = variant_facts(&base);
+    // identity
+    compare_expect(&o, &o, &fb, &fb)?;
+    let mut variants: Vec<Variant> = vec![];
     if c.n > 1 {
-        let np = pairs(c.n - 1).len();
         let mut v = c.clone();
         v.n = c.n - 1;
-        // keep only edges among the first n-1 nodes (pairs are enumerated lexicographically over n, so rebuild)
         let mut e2 = 0u32;
         for (k2, (i, j)) in pairs(c.n - 1).into_iter().enumerate() {
             let k = pairs(c.n).iter().position(|&p| p == (i, j)).unwrap();
@@ -1342,94 +1517,91 @@ pub fn check_c18(c: &Case) -> Check {
                 e2 |= 1 << k2;
             }
         }
-        let _ = np;
         v.edges = e2;
         v.facts.retain(|f| (f.2 as usize) < c.n - 1);
-        variants.push(v);
+        variants.push(Variant { case: v, enc: None });
     }
-    for k in 0..pairs(c.n).len() {
+    let np = pairs(c.n).len();
+    for k in 0..np {
         let mut v = c.clone();
         v.edges ^= 1 << k;
-        variants.push(v);
+        variants.push(Variant { case: v, enc: None });
+        // two links changed at once (e.g. a term moved from one parent to another)
+        for k2 in (k + 1)..np {
+            let mut v = c.clone();
+            v.edges ^= (1 << k) | (1 << k2);
+            variants.push(Variant { case: v, enc: None });
+        }
     }
     for d in 0..c.n as u8 {
-        let mut v = c.clone();
-        v.facts.push((0, 1, d));
-        variants.push(v);
-        let mut v = c.clone();
-        v.facts.push((1, 77, d));
-        variants.push(v);
-    }
-    for v in variants {
-        let mv = Model::new(&v);
-        let o2 = build(&v, false)?;
-        for (old, new, mo, mn) in [(&o, &o2, &m, &mv), (&o2, &o, &mv, &m)] {
-            let cmp = old.compare(new);
-            let ids_old: BTreeSet<u32> = mo.ids.iter().copied().collect();
-            let ids_new: BTreeSet<u32> = mn.ids.iter().copied().collect();
-            let added: BTreeSet<u32> = cmp.added_hpo_terms().iter().map(|t| t.id().as_u32()).collect();
-            let removed: BTreeSet<u32> = cmp.removed_hpo_terms().iter().map(|t| t.id().as_u32()).collect();
-            expect("added terms", added, ids_new.difference(&ids_old).copied().collect())?;
-            expect("removed terms", removed, ids_old.difference(&ids_new).copied().collect())?;
-            // changed terms: present in both with different direct parents (names/flags are equal here)
-            let mut exp_changed: BTreeMap<u32, (BTreeSet<u32>, BTreeSet<u32>)> = BTreeMap::new();
-            for &id in ids_old.intersection(&ids_new) {
-                let po = mo.idset(&mo.parents[mo.ids.iter().position(|&x| x == id).unwrap()]);
-                let pn = mn.idset(&mn.parents[mn.ids.iter().position(|&x| x == id).unwrap()]);
-                if po != pn {
-                    exp_changed.insert(id, (pn.difference(&po).copied().collect(), po.difference(&pn).copied().collect()));
-                }
-            }
-            let got_changed: BTreeMap<u32, (BTreeSet<u32>, BTreeSet<u32>)> = cmp
-                .changed_hpo_terms()
-                .iter()
-                .map(|d| {
-                    (
-                        d.id().as_u32(),
-                        (
-                            d.added_parents().map(|v| v.iter().map(|x| x.as_u32()).collect()).unwrap_or_default(),
-                            d.removed_parents().map(|v| v.iter().map(|x| x.as_u32()).collect()).unwrap_or_default(),
-                        ),
-                    )
-                })
-                .collect();
-            expect("changed terms (added parents, removed parents)", got_changed, exp_changed)?;
-            for kind in 0..3 {
-                let ro: BTreeSet<u32> = mo.recs[kind].keys().copied().collect();
-                let rn: BTreeSet<u32> = mn.recs[kind].keys().copied().collect();
-                let (ga, gr, gc): (BTreeSet<u32>, BTreeSet<u32>, BTreeMap<String, (BTreeSet<u32>, BTreeSet<u32>)>) = match kind {
-                    0 => (
-                        cmp.added_genes().iter().map(|g| g.id().as_u32()).collect(),
-                        cmp.removed_genes().iter().map(|g| g.id().as_u32()).collect(),
-                        cmp.changed_genes().iter().map(|d| (d.id().to_string(), (d.added_terms().map(|v| v.iter().map(|x| x.as_u32()).collect()).unwrap_or_default(), d.removed_terms().map(|v| v.iter().map(|x| x.as_u32()).collect()).unwrap_or_default()))).collect(),
-                    ),
-                    1 => (
-                        cmp.added_omim_diseases().iter().map(|g| g.id().as_u32()).collect(),
-                        cmp.removed_omim_diseases().iter().map(|g| g.id().as_u32()).collect(),
-                        cmp.changed_omim_diseases().iter().map(|d| (d.id().to_string(), (d.added_terms().map(|v| v.iter().map(|x| x.as_u32()).collect()).unwrap_or_default(), d.removed_terms().map(|v| v.iter().map(|x| x.as_u32()).collect()).unwrap_or_default()))).collect(),
-                    ),
-                    _ => (
-                        cmp.added_orpha_diseases().iter().map(|g| g.id().as_u32()).collect(),
-                        cmp.removed_orpha_diseases().iter().map(|g| g.id().as_u32()).collect(),
-                        cmp.changed_orpha_diseases().iter().map(|d| (d.id().to_string(), (d.added_terms().map(|v| v.iter().map(|x| x.as_u32()).collect()).unwrap_or_default(), d.removed_terms().map(|v| v.iter().map(|x| x.as_u32()).collect()).unwrap_or_default()))).collect(),
-                    ),
-                };
-                expect(&format!("added records kind {kind}"), ga, rn.difference(&ro).copied().collect())?;
-                expect(&format!("removed records kind {kind}"), gr, ro.difference(&rn).copied().collect())?;
-                let mut n_changed = 0;
-                for r in ro.intersection(&rn) {
-                    let (dso, dsn) = (mo.idset(&mo.recs[kind][r]), mn.idset(&mn.recs[kind][r]));
-                    if dso != dsn {
-                        n_changed += 1;
-                        let hit = gc.values().any(|(a, rm)| *a == dsn.difference(&dso).copied().collect::<BTreeSet<u32>>() && *rm == dso.difference(&dsn).copied().collect::<BTreeSet<u32>>());
-                        if !hit {
-                            return Err(format!("changed record {r} of kind {kind} not reported with its exact added/removed terms"));
-                        }
-                    }
-                }
-                expect(&format!("number of changed records kind {kind}"), gc.len(), n_changed)?;
-            }
+        for (kind, r) in [(0u8, 1u32), (1, 77), (2, 2)] {
+            let mut v = c.clone();
+            v.facts.push((kind, r, d));
+            variants.push(Variant { case: v, enc: None });
         }
+    }
+    // drop one annotation fact; exchange the term of one fact
+    for i in 0..c.facts.len() {
+        let mut v = c.clone();
+        v.facts.remove(i);
+        variants.push(Variant { case: v, enc: None });
+        let mut v = c.clone();
+        v.facts[i].2 = (v.facts[i].2 + 1) % c.n as u8;
+        variants.push(Variant { case: v, enc: None });
+    }
+    // edits the Builder cannot express: through the independent v3 encoder (both sides, so that only the edit differs)
+    let plain = Enc { version: 3, reverse: false, flags: vec![(false, 0); c.n], rename_term: None, rename_rec: None };
+    let ids_v = ids(c.idmap, c.n);
+    let encodable = c.idmap == 0 && c.n >= 2 && c.edges & 1 == 1;
+    if !encodable {
+        return c18_builder_variants(&o, &fb, &variants);
+    }
+    let enc_base = Variant { case: c.clone(), enc: Some(plain.clone()) };
+    let oe = variant_build(&enc_base)?;
+    let fe = variant_facts(&enc_base);
+    compare_expect(&o, &oe, &fb, &fe)?;
+    let mut enc_variants: Vec<Variant> = vec![];
+    for t in 0..c.n {
+        let mut e = plain.clone();
+        e.rename_term = Some(t);
+        enc_variants.push(Variant { case: c.clone(), enc: Some(e) });
+        let mut e = plain.clone();
+        e.flags[t].0 = true;
+        enc_variants.push(Variant { case: c.clone(), enc: Some(e) });
+        let mut e = plain.clone();
+        e.flags[t].1 = ids_v[(t + 1) % c.n];
+        enc_variants.push(Variant { case: c.clone(), enc: Some(e.clone()) });
+        if c.n > 2 {
+            // replacement changed from one term to another
+            let mut e2 = plain.clone();
+            e2.flags[t].1 = ids_v[(t + 2) % c.n];
+            let (va, vb) = (Variant { case: c.clone(), enc: Some(e) }, Variant { case: c.clone(), enc: Some(e2) });
+            let (oa, ob) = (variant_build(&va)?, variant_build(&vb)?);
+            compare_expect(&oa, &ob, &variant_facts(&va), &variant_facts(&vb))?;
+        }
+    }
+    let m = Model::new(c);
+    for kind in 0..3 {
+        if let Some(r) = m.recs[kind].keys().next() {
+            let mut e = plain.clone();
+            e.rename_rec = Some((kind, *r));
+            enc_variants.push(Variant { case: c.clone(), enc: Some(e) });
+        }
+    }
+    for v in &enc_variants {
+        let o2 = variant_build(v)?;
+        let f2 = variant_facts(v);
+        compare_expect(&oe, &o2, &fe, &f2).map_err(|e| format!("old = case, new = encoded variant {:?}/{:?}/{:?}: {e}", v.enc.as_ref().unwrap().flags, v.enc.as_ref().unwrap().rename_term, v.enc.as_ref().unwrap().rename_rec))?;
+        compare_expect(&o2, &oe, &f2, &fe).map_err(|e| format!("old = encoded variant, new = case: {e}"))?;
+    }
+    c18_builder_variants(&o, &fb, &variants)
+}
+fn c18_builder_variants(o: &Ontology, fb: &Facts, variants: &[Variant]) -> Check {
+    for v in variants {
+        let o2 = variant_build(v)?;
+        let f2 = variant_facts(v);
+        compare_expect(o, &o2, fb, &f2).map_err(|e| format!("old = case, new = variant {}: {e}", v.case.id()))?;
+        compare_expect(&o2, o, &f2, fb).map_err(|e| format!("old = variant {}, new = case: {e}", v.case.id()))?;
     }
     Ok(())
 }
